@@ -1,7 +1,7 @@
 """Rules about OrderQueue's own primitives (map + ticket queue): shared by C03 C04 C06 C08 C10 C11 C13 C19."""
 from .effects import make_effect_fn, classify
 from .terms import short, subterms, Int
-from .db import AnchorError
+from .db import AnchorError, strip_generics
 from .common import describe_path
 
 QSELF = ("obj", ("param", 1))
@@ -21,6 +21,7 @@ class QueueAnalysis:
         self.ctx = ctx
         self.db = ctx.db
         self.adt = self.db.adt("price_level::order_queue::OrderQueue")
+        self.qmod = self.adt["def"].rsplit("::", 1)[0] + "::"      # the module OrderQueue lives in (whatever its name)
         fields = self.adt["variants"][0]["fields"]
         m = [f for f in fields if "DashMap" in f["ty"]]
         t = [f for f in fields if "SegQueue" in f["ty"]]
@@ -323,7 +324,7 @@ class QueueAnalysis:
                 owner = body
                 while owner.kind == "Closure" and owner.parent in self.db.bodies:
                     owner = self.db.bodies[owner.parent]
-                in_queue_impl = (owner.impl_self or "").endswith("order_queue::OrderQueue") or "order_queue::OrderQueueVisitor" in (owner.impl_self or "")
+                in_queue_impl = strip_generics(owner.impl_self or "").split("::")[-1] in ("OrderQueue", "OrderQueueVisitor")
                 chk.require(in_queue_impl or m in ("new",), rid, "%s:%s.%s:outside-queue" % (d, c, m), span,
                             "%s.%s performed outside the OrderQueue implementation (in %s)" % (c, m, d))
                 if (c, m) in allowed:
@@ -523,20 +524,20 @@ class QueueAnalysis:
                 return base_eff(callee, args, st, walker)
             w.effect_of = eff
             # element parsers / deserializers are opaque here: only the constructor's own iteration matters
-            w.no_inline = lambda p: "order_queue" not in p
+            w.no_inline = lambda p: self.qmod not in p
             res = w.walk(b)
-            iters = [r for r in res if r.kind == "backedge" and ("order_queue" in r.detail[1] or r.detail[1] == "<for_each>")]
+            iters = [r for r in res if r.kind == "backedge" and (self.qmod in r.detail[1] or r.detail[1] == "<for_each>")]
             chk.require(len(iters) >= 1, rid, b.defp + ":has-loop", b.span, "constructor has no element loop")
             bad_calls = set()
             for r in res:
                 for e in r.trace:
-                    if e[0] == "call" and (len(e[4]) == 1 or "order_queue" in e[4][-1][0]) and any(x in e[1] for x in ("::rev", "sort", "::reverse", "pop", "swap", "rposition", "next_back", "rsplit", "rfold", "into_sorted", "BinaryHeap", "BTree", "HashMap", "HashSet")):
+                    if e[0] == "call" and (len(e[4]) == 1 or self.qmod in e[4][-1][0]) and any(x in e[1] for x in ("::rev", "sort", "::reverse", "pop", "swap", "rposition", "next_back", "rsplit", "rfold", "into_sorted", "BinaryHeap", "BTree", "HashMap", "HashSet")):
                         bad_calls.add(e[1])
             chk.require(not bad_calls, rid, b.defp + ":forward-iteration", b.span, "order-changing calls on the way: %s" % sorted(bad_calls))
             for r in iters:
                 seg = r.since_loop()
                 pushes = [e for e in seg if e[0] == "eff" and e[1] == "Q.push"]
-                nexts = [e for e in seg if e[0] == "call" and (len(e[4]) == 1 or "order_queue" in e[4][-1][0]) and (e[1].endswith("::next") or e[1].endswith("next_element"))]
+                nexts = [e for e in seg if e[0] == "call" and (len(e[4]) == 1 or self.qmod in e[4][-1][0]) and (e[1].endswith("::next") or e[1].endswith("next_element"))]
                 ok = len(pushes) == 1 and len(nexts) >= 1
                 if not chk.require(ok, rid, b.defp + ":one-push-per-element", b.span,
                                    "an iteration performs %d pushes for %d element fetches" % (len(pushes), len(nexts)), describe_path(r)):
